@@ -165,8 +165,19 @@ fn check_typed<T: Serialize + DeserializeOwned + std::fmt::Debug>(ty: &str, v: &
 }
 
 fn prop_typed(t: &mut Tape, st: &mut Stats) -> Result<(), Failure> {
-    let r = match t.below(7) {
+    let r = match t.below(9) {
         6 => check_typed("Attrs", &g_attrs(t), st),
+        // an enum at the document root: unit variants are not documents, tuple / struct variants may
+        // be refused (documented); what is written must read back
+        7 | 8 => {
+            let v = g_e(t);
+            if toml::to_string(&v).is_err() {
+                st.class("root-enum-refused");
+                Ok(())
+            } else {
+                check_typed("root E", &v, st)
+            }
+        }
         0 => check_typed("Scalars", &g_scalars(t), st),
         1 => check_typed("Opts", &g_opts(t), st),
         2 => check_typed("Seqs", &g_seqs(t), st),
